@@ -21,6 +21,7 @@ from ..tlc import run_tlc, TLCFailure
 MODULE = "C02_PolicyEval"
 QD = 6
 EPS = F(1, 2 ** 30)     # the concrete size of a "rare" weight handed to msdm (TLC only knows it is > 0)
+NEAR1 = {1: 1 - 2.0 ** -20, 2: 0.999999}   # concrete "1 - eps" discounts (TLC only knows they are < 1)
 MENU_ROWS = {}          # K -> list of weight rows over K actions (numerators over 6)
 LIMIT = 2 ** 28         # bound on every integer TLC has to form (its integers are 32-bit)
 TLC_WORKERS = None      # framework default; one TLC run is in flight while the previous chunk is judged
@@ -370,6 +371,36 @@ def rand_p0(rng, m):
         m["p0"][s] = x
 
 
+def add_beyond(rng, m, rewards):
+    """Functional models often just declare the goal absorbing: one available action of a reachable absorbing
+    state leads only to a state that nothing else reaches (so an inferred state list does not hold it).
+    The extra state is explicitly absorbing itself (it matters only when the list is given explicitly)."""
+    reach = gen.reach(m)
+    cands = [s for s in sorted(reach) if m["abs"][s]]
+    if not cands:
+        return False
+    N, K, PD = m["N"], m["K"], m["PD"]
+    for s in range(N):
+        for a in range(K):
+            m["P"][s][a].append(0)
+            m["R"][s][a].append(0)
+    u = N
+    m["N"] = N + 1
+    m["abs"].append(1)
+    row = [1 if rng.random() < 0.7 else 0 for _ in range(K)]
+    if not any(row):
+        row[rng.randrange(K)] = 1
+    m["avail"].append(row)
+    m["P"].append([[0] * N + [PD] for _ in range(K)])
+    m["R"].append([[0] * (N + 1) for _ in range(K)])
+    m["p0"].append(0)
+    s = rng.choice(cands)
+    a = rng.choice([a for a in range(K) if m["avail"][s][a]])
+    m["P"][s][a] = [0] * N + [PD]
+    m["R"][s][a][u] = rng.choice(rewards)
+    return True
+
+
 def zero_flags(m):
     return [[0] * m["K"] for _ in range(m["N"])]
 
@@ -412,6 +443,22 @@ def alt_policy(m, wq, tn):
     return out
 
 
+def alt_instance(m):
+    """AltM of the spec: the other surrogate discount of a near-one instance."""
+    if not m.get("near1"):
+        return m
+    gn, gd = (3, 4) if m["GD"] == 2 else (1, 2)
+    return dict(m, GN=gn, GD=gd)
+
+
+def real_instance(m):
+    """The instance with the discount msdm really gets (exact Fraction of the float)."""
+    if not m.get("near1"):
+        return m
+    g = F(NEAR1[m["g_kind"]])
+    return dict(m, GN=g.numerator, GD=g.denominator)
+
+
 def real_weights(m, wq, tn):
     """Fraction weights handed to msdm: rare entries are EPS, the ordinary entries of the row share the rest
     in the proportions of the surrogate."""
@@ -443,12 +490,19 @@ def make_cases(rng, n_wanted, tier):
                          rewards=f["rewards"], ID=rng.choice([2, 4]), init_on_abs=0.25,
                          p_implicit=0.12)
         rand_p0(rng, m)
+        beyond = rng.random() < 0.3 and add_beyond(rng, m, f["rewards"])
         # ghost policy rows at explicitly absorbing states (on their ghost-available actions)
         m["gw"] = [list(rng.choice(rows_at(m, s))) if m["abs"][s] else [0] * K for s in range(m["N"])]
         count = 1
         for s in range(m["N"]):
             if not m["abs"][s]:
                 count *= len(rows_at(m, s))
+        # discount "1 - eps": discounted families only (the surrogate GN/GD and the alternative one are < 1)
+        m["near1"] = 0
+        m["g_kind"] = 0
+        if f["GN"] < f["GD"] and f["GD"] <= 4 and rng.random() < 0.3:
+            m["near1"] = 1
+            m["g_kind"] = rng.choice([1, 1, 2])
         listed, tinys = [], []
         if count <= 25:
             m["allpols"] = 1
@@ -462,7 +516,7 @@ def make_cases(rng, n_wanted, tier):
                     tinys.append(zero_flags(m))
             checked = list(listed)
         # policies with rare entries: mostly where they decide between finite and -inf (undiscounted)
-        n_rare = rng.choice([2, 2, 3]) if f["GN"] == f["GD"] else rng.choice([0, 0, 1])
+        n_rare = rng.choice([2, 2, 3]) if f["GN"] == f["GD"] else (0 if m["near1"] else rng.choice([0, 0, 1]))
         for _ in range(n_rare):
             rp = rand_rare_policy(rng, m)
             if rp is not None and not any(rp[0] == listed[i] and rp[1] == tinys[i] for i in range(len(listed))):
@@ -471,6 +525,8 @@ def make_cases(rng, n_wanted, tier):
                 checked += [rp[0], alt_policy(m, rp[0], rp[1])]
         m["pols"], m["tinys"] = listed, tinys
         ex = [exact(m, p) for p in checked]
+        if m["near1"]:
+            ex += [exact(alt_instance(m), p) for p in checked]
         if any(e is None or e["mag"] >= LIMIT for e in ex):
             rejected += 1
             continue
@@ -485,11 +541,14 @@ def make_cases(rng, n_wanted, tier):
                     rng.shuffle(ap)
         m["sp"], m["ap"] = sp, ap
         rep = dict(MDP_REPS[rng.randrange(len(MDP_REPS))])
-        if not rep["explicit_list"] and not gen.ghost_closed(m):
-            rep["explicit_list"] = True      # ghost successors outside the inferred list: C06's business
+        if beyond and rng.random() < 0.8:        # mostly on inferred state lists, where the successor is not listed
+            rep = dict(rng.choice([r for r in MDP_REPS if not r["explicit_list"] and r["rep"] != "matrices"]))
+        if not rep["explicit_list"] and rep["rep"] == "matrices" and not gen.ghost_closed(m):
+            rep["explicit_list"] = True      # the matrix builder of the harness needs every successor listed
         if m["hist"]:
             rep["explicit_list"] = True      # both presentations list every state and action
             rep["relabel"] = rng.random() < 0.4
+        m["explicit"] = 1 if rep["explicit_list"] else 0
         cases.append({"m": m, "rep": rep})
         total += n_records(m)
     return cases, rejected
@@ -546,7 +605,7 @@ def make_policy(mdp, rows, prep, rng, extra_states=()):
 RELABEL = {"int": "str", "str": "tuple", "tuple": "int", "frozendict": "mixed", "mixed": "frozendict"}
 
 
-def second_presentation(mm, rep, seed, first):
+def second_presentation(mm, rep, seed, first, discount=None):
     """The MDP of the case once more, for the same policy object: same action labels, state list and
     action list permuted by sp / ap, optionally other state labels."""
     m = first.m
@@ -556,7 +615,7 @@ def second_presentation(mm, rep, seed, first):
         rep2["rep"] = "quick"
     if rep.get("relabel"):
         rep2["labels"] = RELABEL[rep2["labels"]]
-    b = build.build_mdp(mm, rng=random.Random(seed), **rep2)
+    b = build.build_mdp(mm, rng=random.Random(seed), discount=discount, **rep2)
     if b.alabel != first.alabel:
         raise TLCFailure("second presentation: action labels differ (driver bug)")
     b.mdp._state_list = [b.slabel[i - 1] for i in m["sp"]]
@@ -574,6 +633,7 @@ def run_real(case, wq, tn, preps, tamper=None):
         mm = dict(m)
         mm["R"] = [[[x - 1 for x in row] for row in sa] for sa in m["R"]]
     wreal = real_weights(m, wq, tn)
+    disc_real = NEAR1[m["g_kind"]] if m.get("near1") else None
     rep1 = {k: rep[k] for k in ("rep", "labels", "alabels", "explicit_list", "dist")}
     out = {}
     for prep in preps:
@@ -584,11 +644,11 @@ def run_real(case, wq, tn, preps, tamper=None):
         try:
             with warnings.catch_warnings():
                 warnings.simplefilter("ignore")
-                b = build.build_mdp(mm, rng=rng, **rep1)
+                b = build.build_mdp(mm, rng=rng, discount=disc_real, **rep1)
                 rows = policy_rows(b, wreal, m["gw"])
                 b2, extra = None, []
                 if m.get("hist"):
-                    b2 = second_presentation(mm, rep, seed, b)
+                    b2 = second_presentation(mm, rep, seed, b, disc_real)
                     rows2 = policy_rows(b2, wreal, m["gw"])
                     extra = [s for s in rows2 if s not in rows]
                     rows.update(rows2)
@@ -625,7 +685,7 @@ def project(b, r):
 # --------------------------------------------------------------------------------------------
 # judging
 # --------------------------------------------------------------------------------------------
-def close(x, ex, binding=True):
+def close(x, ex, binding=True, tol=1e-9):
     """float from msdm against the exact value emitted by TLC (Fraction / +-inf).  An entry that is not
     binding (it depends on the size of a rare weight) only has to be finite where the exact one is."""
     if isinstance(ex, float):
@@ -635,14 +695,14 @@ def close(x, ex, binding=True):
     if not binding:
         return True
     e = float(ex)
-    return abs(x - e) <= 1e-9 * max(1.0, abs(e))
+    return abs(x - e) <= tol * max(1.0, abs(e))
 
 
 WHAT = ("mc: oracle + evaluation machine over (instance, policy) pairs; all menu policies enumerated by TLC "
         "on instances with <= 25 of them; policies with rare entries; second round of the machine on the "
         "permuted presentation for object-reuse histories")
 BATCH_FIELDS = ("N", "K", "PD", "GN", "GD", "ID", "abs", "avail", "P", "R", "p0", "gw", "allpols", "pols",
-                "tinys", "hist", "sp", "ap")
+                "tinys", "hist", "sp", "ap", "near1", "explicit")
 
 
 def tlc_run(ctx, cases, tag="mc", coverage=False):
@@ -666,7 +726,7 @@ def tlc_records(ctx, cases, what, res=None):
     return res.records
 
 
-def judge_cases(ctx, cases, *, tamper=None, tamper_at=0, preps=None, res=None):
+def judge_cases(ctx, cases, *, tamper=None, tamper_at=(), preps=None, res=None):
     recs = tlc_records(ctx, cases, WHAT, res=res)
     expected = sum(n_records(c["m"]) for c in cases)
     if len(recs) != expected:
@@ -674,7 +734,7 @@ def judge_cases(ctx, cases, *, tamper=None, tamper_at=0, preps=None, res=None):
     recs.sort(key=lambda r: (r["iid"], r["w"], r["tn"]))
     for n, r in enumerate(recs):
         c = cases[r["iid"] - 1]
-        judge_one(ctx, c, r, n, tamper=(tamper if n == tamper_at else None), preps=preps)
+        judge_one(ctx, c, r, n, tamper=(tamper if n in tamper_at else None), preps=preps)
 
 
 def crosscheck(m, wq, tn, r):
@@ -695,8 +755,8 @@ def crosscheck(m, wq, tn, r):
                 raise TLCFailure(f"TLA+ and Python oracles disagree on Q[{s}][{a}]: {r['q'][s][a]} vs {ex['q'][s][a]} (m={m}, w={wq})")
     if not same(r["init"], ex["init"]):
         raise TLCFailure(f"TLA+ and Python oracles disagree on the initial value: {r['init']} vs {ex['init']} (m={m}, w={wq})")
-    if any(any(row) for row in tn):
-        er = exact(m, wq, wf=real_weights(m, wq, tn))
+    if any(any(row) for row in tn) or m.get("near1"):
+        er = exact(real_instance(m), wq, wf=real_weights(m, wq, tn))
         vx = {s - 1 for s in r["vexact"]}
         ox = {s - 1 for s in r["oexact"]}
 
@@ -704,7 +764,7 @@ def crosscheck(m, wq, tn, r):
             inf_t = frac(tla) in (float("-inf"), float("inf"))
             inf_p = py in (pyoracle.NEG, pyoracle.POS)
             if inf_t != inf_p or (inf_t and not same(tla, py)) or (binding and not same(tla, py)):
-                raise TLCFailure(f"rare weights: TLA+ verdict on {what} ({tla}, binding={binding}) contradicts the exact "
+                raise TLCFailure(f"rare weights / near-one discount: TLA+ verdict on {what} ({tla}, binding={binding}) contradicts the exact "
                                  f"evaluation with weight 2^-30 ({py}) (m={m}, w={wq}, tn={tn})")
         for s in range(N):
             agree(r["v"][s], er["v"][s], s in vx, f"V[{s}]")
@@ -721,7 +781,11 @@ def judge_one(ctx, c, r, n, *, tamper=None, preps=None):
     N, K = m["N"], m["K"]
     disc = m["GN"] < m["GD"]
     rare = any(any(row) for row in tn)
-    if n % 3 == 0 or tamper or rare:
+    near1 = bool(m.get("near1"))
+    # binding entries of a near-one instance: cond(I - gamma P) <= 2/(1-gamma) = 2^21, so 1e-16 * 5 * 2^21 ~ 1e-9
+    # is the attainable accuracy; 1e-6 leaves three orders of magnitude (the entries do not depend on gamma)
+    tol = 1e-6 if near1 else 1e-9
+    if n % 3 == 0 or tamper or rare or near1:
         crosscheck(m, wq, tn, r)
         ctx.count("oracle_crosschecks")
     v = [frac(x) for x in r["v"]]
@@ -735,13 +799,14 @@ def judge_one(ctx, c, r, n, *, tamper=None, preps=None):
     ox = {s - 1 for s in r["oexact"]}
     qx = r["qexact"]
     ix = bool(r["iexact"])
+    absfin = r["absfin"]
     if preps is None:
         rng = random.Random(digest([m, wq, tn]))
         preps = [DIRECT[rng.randrange(len(DIRECT))], CONVERTED[rng.randrange(len(CONVERTED))]]
     outs = run_real(c, wq, tn, preps, tamper=("instance" if tamper == "instance" else None))
     if tamper == "value":
         o = next(o for st in outs.values() for _, o in st if "error" not in o)
-        s = next((s for s in o["states"] if s not in absall), o["states"][0])
+        s = next((s for s in o["states"] if s not in absall and s in vx), o["states"][0])   # a binding entry
         o["V"][s] += 0.5
     site = SITE[disc]
     conv = {"functional_dict": "Policy.to_tabular", "functional_dist_perm": "Policy.to_tabular",
@@ -766,6 +831,8 @@ def judge_one(ctx, c, r, n, *, tamper=None, preps=None):
                     sig = f"C02:{site}:{clause}"
                 if rare:
                     sig += ":rare-weight"
+                if near1:
+                    sig += ":discount-just-below-1"
                 ctx.violation(sig, f"{site} [{prep}, {stage}] {clause}: {what}",
                               {"case": _single({"case": c, "w": wq, "tn": tn}), "w": wq, "tn": tn, "preps": [prep],
                                "clause": clause})
@@ -776,7 +843,7 @@ def judge_one(ctx, c, r, n, *, tamper=None, preps=None):
                 listed = o["states"]
                 # --- clause: state values (absorbing states worth 0, -inf exactly on the oracle's set)
                 for s in listed:
-                    if not close(o["V"][s], v[s], s in vx):
+                    if not close(o["V"][s], v[s], s in vx, tol):
                         kind = "absorbing-zero" if s in absall else ("neginf-set" if (isinstance(v[s], float) or not math.isfinite(o["V"][s])) else "state_value")
                         fail(kind, f"state_value[{s}]={o['V'][s]} but exact {v[s]}")
                         break
@@ -786,13 +853,18 @@ def judge_one(ctx, c, r, n, *, tamper=None, preps=None):
                     for a in o["actions"]:
                         x = o["Q"][s][a]
                         if m["abs"][s]:
+                            if absfin[s][a] and not math.isfinite(x):
+                                fail("available-action-of-absorbing-state", f"action_value[{s}][{a}]={x}: the action is "
+                                     f"available in the absorbing state {s} and no successor is worth -inf")
+                                done = True
+                                break
                             e = mq[s][a] if mq[s][a] is not None else float("-inf")
-                            if not close(x, e, bool(qx[s][a])):
+                            if not close(x, e, bool(qx[s][a]), tol):
                                 drifts.append(("ActionValue-at-absorbing-state",
                                                {"case": digest(c), "state": s, "action": a, "real": x, "machine": str(e)}))
                             continue
                         e = q[s][a] if q[s][a] is not None else float("-inf")
-                        if not close(x, e, bool(qx[s][a])):
+                        if not close(x, e, bool(qx[s][a]), tol):
                             kind = "unavailable-action" if q[s][a] is None else "action_value"
                             fail(kind, f"action_value[{s}][{a}]={x} but exact {e}")
                             done = True
@@ -801,7 +873,7 @@ def judge_one(ctx, c, r, n, *, tamper=None, preps=None):
                         break
                 # --- clause: occupancies (implicitly absorbing states: DRIFT only)
                 for s in listed:
-                    if not close(o["occ"][s], occ[s], s in ox):
+                    if not close(o["occ"][s], occ[s], s in ox, tol):
                         if s in implabs:
                             drifts.append(("Occupancy-at-implicitly-absorbing-state",
                                            {"case": digest(c), "state": s, "real": o["occ"][s], "machine": str(occ[s])}))
@@ -810,7 +882,7 @@ def judge_one(ctx, c, r, n, *, tamper=None, preps=None):
                         fail(kind, f"state_occupancy[{s}]={o['occ'][s]} but exact {occ[s]}")
                         break
                 # --- clause: initial value
-                if not close(o["initial_value"], init, ix):
+                if not close(o["initial_value"], init, ix, tol):
                     fail("initial_value", f"initial_value={o['initial_value']} but exact {init}")
             if stage == "fresh":
                 fresh_failed = set(failed)
@@ -835,6 +907,11 @@ def judge_one(ctx, c, r, n, *, tamper=None, preps=None):
                 ctx.count("records_with_rare_weights_and_nonbinding_values")
         if m.get("hist"):
             ctx.count("records_with_object_reuse_history")
+        if near1:
+            ctx.count("records_with_discount_just_below_1")
+        if any(absfin[s][a] and not any(m["P"][s][a][t] > 0 and t in ok_out["states"] for t in range(N))
+               for s in ok_out["states"] for a in range(K)):
+            ctx.count("records_with_absorbing_action_leading_outside_the_state_list")
         if not disc:
             if any(v[s] == float("-inf") for s in na):
                 ctx.count("undiscounted_cases_with_neginf_state")
@@ -842,7 +919,7 @@ def judge_one(ctx, c, r, n, *, tamper=None, preps=None):
                 ctx.count("undiscounted_cases_with_finite_nonzero_state")
             if any(occ[s] == float("inf") for s in na):
                 ctx.count("undiscounted_cases_with_posinf_occupancy")
-    ctx.sample({"instance": {k: m[k] for k in ("N", "K", "PD", "GN", "GD", "ID", "abs", "avail", "P", "R", "p0", "gw", "hist", "sp", "ap")},
+    ctx.sample({"instance": {k: m[k] for k in ("N", "K", "PD", "GN", "GD", "ID", "abs", "avail", "P", "R", "p0", "gw", "hist", "sp", "ap", "near1", "g_kind", "explicit")},
                 "policy_w_over_6": wq, "rare_flags": tn, "rep": c["rep"], "policy_reps": preps,
                 "exact": {"v": [str(x) for x in v], "occ": [str(x) for x in occ], "init": str(init)},
                 "real": {p: [(stage, o if "error" in o else {"V": o["V"], "occ": o["occ"], "initial_value": o["initial_value"]})
@@ -858,7 +935,9 @@ def run(ctx):
                 "ghost dynamics and ghost policy rows, implicit absorbing states, 1-3 state-dependent actions, gamma in "
                 "{1/2,3/4,9/10,1}, PD in {2,4}, initial mass on absorbing states) x stochastic policies with weights in "
                 "{0,1/3,1/2,2/3,1} (all of them, enumerated by TLC, when there are <= 25; 6 sampled otherwise) plus policies "
-                "with rare entries (weight 2^-30 in msdm, 'some weight > 0' in the spec) x 7 MDP representations x 6 policy "
+                "with rare entries (weight 2^-30 in msdm, 'some weight > 0' in the spec); 30% of the discounted instances get "
+                "the discount 1-2^-20 or 0.999999 ('some discount < 1' in the spec); inferred state lists may leave "
+                "successors of absorbing states unlisted x 7 MDP representations x 6 policy "
                 "representations; on 30% of the instances the same policy object is evaluated again on a second presentation "
                 "of the MDP (permuted state / action lists, optionally other state labels) and back on the first; "
                 "non-trivial = >= 2 listed non-absorbing states and a state where the policy mixes two actions of "
@@ -899,6 +978,9 @@ def _single(case):
     m["allpols"], m["pols"] = 0, [case["w"]]
     m["tinys"] = [case.get("tn") or zero_flags(m)]
     m.setdefault("hist", 0)
+    m.setdefault("near1", 0)
+    m.setdefault("g_kind", 0)
+    m.setdefault("explicit", 1 if case["case"]["rep"].get("explicit_list") else 0)
     m.setdefault("sp", list(range(1, m["N"] + 1)))
     m.setdefault("ap", list(range(1, m["K"] + 1)))
     return {"m": m, "rep": case["case"]["rep"]}
@@ -919,11 +1001,11 @@ def selftest(ctx):
     rng = random.Random(11)
     cases, _ = make_cases(rng, 60, "quick")
     # discounted cases only, so that nothing but the tampering can fail
-    cases = [c for c in cases if c["m"]["GN"] < c["m"]["GD"]][:6]
+    cases = [c for c in cases if c["m"]["GN"] < c["m"]["GD"] and not c["m"]["near1"]][:6]
     ok = True
     for tamper in ("value", "instance"):
         before = len(ctx.violations)
-        judge_cases(ctx, cases, tamper=tamper, tamper_at=1, preps=["table_perm", "functional_dist_perm"])
+        judge_cases(ctx, cases, tamper=tamper, tamper_at=(1, 8, 15, 22), preps=["table_perm", "functional_dist_perm"])
         got = len(ctx.violations) - before
         print(f"  selftest tamper={tamper}: {got} failure(s) reported", flush=True)
         ok = ok and got >= 1
